@@ -11,9 +11,10 @@
 -/
 import IQE.Props.C25
 import IQE.Lemmas.VectorSearch
+import IQE.Lemmas.VectorSearchShape
 namespace IQE.Props.C43
 open IQE IQE.Spec IQE.Engine IQE.Engine.PlanWf IQE.Engine.VectorSearch IQE.Engine.SortLimit
-open IQE.Lemmas.Sorting IQE.Lemmas.SortModel IQE.Lemmas.OrderAux IQE.Lemmas.VectorSearch
+open IQE.Lemmas.Sorting IQE.Lemmas.SortModel IQE.Lemmas.OrderAux IQE.Lemmas.VectorSearch IQE.Lemmas.VectorSearchShape
 
 /-! ### C43_no_index_exact -/
 
@@ -92,6 +93,71 @@ theorem C43_topk_exact_order (f : DistFn) (desc nf : Bool) (q : List Int) (col :
     (hp.trans (List.mergeSort_perm rows _).symm) hs
     (List.pairwise_mergeSort (rowLe_trans f desc nf q col) (rowLe_total f desc nf q col) rows)
   exact (h.drop skip).take k
+
+/-! ### C43_canonical_shape -/
+
+/-- What the matcher accepts, gate by gate: a `Limit(skip, k ≥ 1)` directly over a `Sort` with exactly ONE key, NULLS LAST, the key a call of
+    one of the four distance functions over (column, constant vector) in either order, the direction "nearest first" for that function, and
+    below the Sort a chain the walk follows down to a scan whose column is a float vector of the literal's width. -/
+theorem C43_canonical_structure (p : Plan) (s : KnnSpec) (h : canonicalKnn p = some s) :
+    ∃ (key : PExpr) (tag : String) (a0 a1 ce : PExpr) (rel : Option String) (v : String) (hit : ScanHit),
+      p = .limit s.skip (some s.k) (.sort [key] [(s.desc, false)] s.input) ∧ s.k ≠ 0 ∧
+      stripAlias key = .op "fn" tag [a0, a1] ∧ DistFn.ofName tag = some s.fn ∧ s.desc = s.fn.nearestDesc ∧
+      splitArgs a0 a1 = some (ce, s.query) ∧ stripAlias ce = .col rel v ∧
+      walk v s.query.length ((schemaOf s.input).map (fun f => (f.name, f.name))) s.input = some hit ∧
+      s.table = hit.table ∧ s.column = hit.column ∧ s.filter = hit.filter ∧ s.scanSchema = hit.scanSchema ∧
+      s.outputs = (hit.a2s.map (·.2)).zip (schemaOf s.input) ∧ s.sortKey = key :=
+  canonicalKnn_inv p s h
+
+/-- The shape the rule may rewrite MEANS the k nearest rows.  If the matcher accepts `p` with extraction `s`, then the literal meaning of
+    `p` — scan the table under the pushed filter, apply the column projections level by level, sort by the distance key, skip, take k —
+    is exactly the answer `s` describes ON THE TABLE: prefilter by `s.filter`, order nearest-first by `s.fn` over scan column `s.column`,
+    skip `s.skip`, take `s.k`, output scan columns `s.outputs` (`knnAnswer`).  In particular the rule's bookkeeping through renaming /
+    reordering projections (`alias_to_source`) names the right scan columns.
+    Hypotheses (all decidable, evaluated on every exported plan by the driver): names pairwise distinct ignoring case at every level of the
+    chain, projections as wide as their schemas, pushed scan projections in range (`chainOk`); the chain's top schema is the one
+    `LogicalPlan::schema()` reports (`hsch`: automatic when the Sort's input is a Project); the catalog table has the scan's schema. -/
+theorem C43_canonical_shape (pred : List PExpr → Schema → VRow → Bool) (litInts : List Nat → List Int) (cat : List VTable)
+    (p : Plan) (s : KnnSpec) (sch : Schema) (out : List VRow)
+    (hc : canonicalKnn p = some s) (hm : meaning pred litInts cat p = some (sch, out))
+    (hok : chainOk s.input = true) (htop : noCiDup ((schemaOf s.input).map (·.name)) = true)
+    (hsch : ∀ si rows, meaning pred litInts cat s.input = some (si, rows) → si = schemaOf s.input)
+    (hcat : ∀ t, cat.find? (fun t => t.name == s.table) = some t → t.schema = s.scanSchema) :
+    knnAnswer pred litInts cat s = some out :=
+  canonical_meaning pred litInts cat p s sch out hc hm hok htop hsch hcat
+
+/-- `hsch` of `C43_canonical_shape` holds by definition when the Sort's input is a Project (what the binder always builds) -/
+theorem C43_canonical_shape_top_schema (pred : List PExpr → Schema → VRow → Bool) (litInts : List Nat → List Int) (cat : List VTable)
+    (exprs : List PExpr) (s : Schema) (i : Plan) (si : Schema) (rows : List VRow)
+    (h : meaning pred litInts cat (.project exprs s i) = some (si, rows)) : si = schemaOf (.project exprs s i) := by
+  simp only [meaning] at h
+  split at h
+  · cases h
+  · split at h
+    · cases h
+    · split at h
+      · cases h
+      · simp only [Option.some.injEq, Prod.mk.injEq] at h
+        exact h.1.symm
+
+/-- … and that answer is the declarative "k nearest after the first skip" of the prefiltered table under the exact order of the metric
+    (NULL vectors last): no sort in the statement (`IsWindow`). -/
+theorem C43_knn_answer_is_nearest (pred : List PExpr → Schema → VRow → Bool) (litInts : List Nat → List Int) (cat : List VTable)
+    (s : KnnSpec) (out : List VRow) (h : knnAnswer pred litInts cat s = some out) :
+    ∃ (t : VTable) (ci : Nat) (idx : List Nat) (w : List VRow),
+      cat.find? (fun t => t.name == s.table) = some t ∧ colIndex t.schema s.column = some ci ∧
+      out = w.map (pick idx) ∧
+      IsWindow (nearLe s.fn (litInts s.query) ci) s.skip s.k (t.rows.filter (pred s.filter t.schema)) w := by
+  simp only [knnAnswer] at h
+  split at h
+  · cases h
+  · rename_i t ht
+    split at h
+    · rename_i ci idx hci hidx
+      simp only [Option.some.injEq] at h
+      refine ⟨t, ci, idx, _, ht, hci, h.symm, ?_⟩
+      exact window_isWindow (rowLe_trans _ _ _ _ _) (rowLe_total _ _ _ _ _) s.skip s.k _
+    · cases h
 
 /-! ### the matcher refuses every non-canonical shape -/
 
@@ -229,6 +295,11 @@ def knnPlan : Plan := .limit 1 (some 2) (.sort [distKey] [(false, false)]
 
 /-- the matcher does accept the canonical plan … -/
 example : (canonicalKnn knnPlan).isSome = true := by decide
+/-- … whose chain satisfies the hypotheses of C43_canonical_shape, and which has a meaning over a catalog holding the table -/
+example : (canonicalKnn knnPlan).map (fun s => chainOk s.input && noCiDup ((schemaOf s.input).map (·.name))) = some true := by decide
+example : (meaning (fun _ _ _ => true) (fun _ => [1, 0])
+    [{ name := "vt", schema := [fld ['i', 'd'] ['i', '6', '4'], fld ['e', 'm', 'b'] ['f', 's', 'l', '<', 'f', '3', '2', ',', '2', '>']],
+       rows := [[.int 1, .vec [0, 0]], [.int 2, .vec [1, 0]], [.int 3, .null]] }] knnPlan).isSome = true := by decide
 /-- … and refuses the same plan with the direction reversed, a 3-element literal, or NULLS FIRST -/
 example : (canonicalKnn (.limit 1 (some 2) (.sort [distKey] [(true, false)] vt))).isSome = false := by decide
 example : (canonicalKnn (.limit 1 (some 2) (.sort [.op "fn" "L2Distance" [.col none (String.ofList ['e', 'm', 'b']), .lit "list" (.vec [1, 0, 0])]] [(false, false)] vt))).isSome = false := by decide
